@@ -908,5 +908,5 @@ def run(tier="quick"):
                        "placement chosen by rehash"]
     for m in models:
         rep.configs.append(m.config)
-        rules(rep, m)
+        common.run_rules(rep, m, rules)
     return rep.finish()
